@@ -71,6 +71,10 @@ pub struct ExchangeSpec {
     pub await_mode: AwaitMode,
     pub server_pre: ServerPre,
     pub resp: RespSpec,
+    /// how the caller supplies the framing header and the ordinary extra headers: 0 on the original request; with
+    /// `Flow::header()` 1 before / 2 after `send_body_despite_method()` (credentials, Connection and Expect stay on the
+    /// original request: redirect suppression, the close verdict and the 100-continue handshake are defined on it)
+    pub prep: u8,
 }
 
 impl ExchangeSpec {
@@ -121,7 +125,9 @@ impl ExchangeSpec {
             .uri(self.uri.as_str())
             .version(if self.req_v10 { Version::HTTP_10 } else { Version::HTTP_11 });
         for (k, v) in &self.extra_headers {
-            b = b.header(k.as_str(), v.as_str());
+            if self.prep == 0 || !k.starts_with("x-h") {
+                b = b.header(k.as_str(), v.as_str());
+            }
         }
         match self.req_conn {
             ReqConn::Absent => {}
@@ -132,7 +138,7 @@ impl ExchangeSpec {
         if self.expect {
             b = b.header("expect", "100-continue");
         }
-        if self.body_due() {
+        if self.body_due() && self.prep == 0 {
             match self.req_framing {
                 ReqFraming::Auto => {}
                 ReqFraming::Cl => b = b.header("content-length", self.body.len().to_string()),
@@ -140,6 +146,27 @@ impl ExchangeSpec {
             }
         }
         b.body(()).map_err(|e| e.to_string())
+    }
+
+    /// Headers the caller adds with `Flow::header()` when `prep != 0`.
+    pub fn flow_headers(&self) -> Vec<(String, String)> {
+        let mut v = vec![];
+        if self.prep == 0 {
+            return v;
+        }
+        if self.body_due() {
+            match self.req_framing {
+                ReqFraming::Auto => {}
+                ReqFraming::Cl => v.push(("content-length".to_string(), self.body.len().to_string())),
+                ReqFraming::Te => v.push(("Transfer-Encoding".to_string(), "chunked".to_string())),
+            }
+        }
+        for (k, val) in &self.extra_headers {
+            if k.starts_with("x-h") {
+                v.push((k.clone(), val.clone()));
+            }
+        }
+        v
     }
 
     /// Framing of the response per the C06 model.
@@ -403,8 +430,19 @@ pub fn run_exchange(spec: &ExchangeSpec, start: Option<Flow<(), Prepare>>, strea
         let _ = f.version();
         let _ = f.headers();
     }
+    // a flow handed in (`start`: a followed redirect) is prepared the same way: the caller may add headers to it too
+    if spec.prep == 1 {
+        for (k, val) in spec.flow_headers() {
+            f.header(k.as_str(), val.as_str()).map_err(|e| format!("Flow::header: {:?}", e))?;
+        }
+    }
     if spec.despite {
         f.send_body_despite_method();
+    }
+    if spec.prep == 2 {
+        for (k, val) in spec.flow_headers() {
+            f.header(k.as_str(), val.as_str()).map_err(|e| format!("Flow::header: {:?}", e))?;
+        }
     }
     let early = spec.early_len();
     let resp_head_bytes = spec.resp.head.bytes();
